@@ -12,12 +12,12 @@ import (
 
 func init() {
 	register(&PropertyDef{
-		ID:    "C02",
-		Title: "Receiver ratchet tolerates any arrival order and duplication of messages",
+		ID:          "C02",
+		Title:       "Receiver ratchet tolerates any arrival order and duplication of messages",
 		Explanation: "Decides the structural clauses of the receiver ratchet from the SSA of pkg/secretstore: (D1) the stored chain key only moves forward (abstract evaluation of the updater over {new<stored,=,>}); (D2) registration is once-only: every write of registration (precomputed window, chain key) is dominated by the 'no chain key stored' outcome of the lookup, and the 'already registered' outcome returns success without any write; (D3) the window created at registration: the precompute loop, evaluated abstractly with window sizes 1..3, derives exactly window-size keys and returns the chain key at counter c+window, the window is persisted before returning, and the chain key stored by registration is that returned value; (D4) slide by one per newly opened message: the post-decryption step writes exactly one next key outside any loop, for the same counter value (stored+1) that it puts in the chain key it returns; (D5) re-reads keep working: key saved by CID before the precomputed key is deleted, the deleted key is the one at the opened header's counter, and the by-CID lookup is tried first with the precomputed lookup only on its miss side, keyed by the header's device and counter; (D6) the 'not registered yet' test that guards registration's writes is made under the same message lock as the writes (no test-then-lock-then-write). Not decided: the window inequality for all permutations with repetition (loop arithmetic over runtime history), one-wayness of the KDF.",
 		Trusted:     []string{"go/ssa (x/tools v0.29.0)", "HKDF one-wayness", "effects identified by the namespace constants of pkg/secretstore"},
 		Assumptions: []string{"the evaluator's window sizes 1..3 are representative of the loop's counting form (the loop body is the same for every size)"},
-		Floors:      map[string]int{"D1": 4, "D2": 3, "D3": 4, "D4": 2, "D5": 4, "D6": 2},
+		Floors:      map[string]int{"D1": 4, "D2": 3, "D3": 7, "D4": 2, "D5": 4, "D6": 2},
 		Run:         runC02,
 	})
 }
@@ -169,146 +169,8 @@ func runC02(c *Ctx) {
 	}
 
 	// ---- D3 window at registration
-	kdf := kdfFuncs(w)
-	var windowFn *ssa.Function
-	for _, fn := range sortedFuncs(regScope) {
-		if !hasLoop(fn) || len(ei.sitesWith(fn, putPre)) == 0 {
-			continue
-		}
-		callsKDF := false
-		for _, e := range w.callGraph().callees[fn] {
-			if kdf[e.Callee] && inLoop(e.Site.(ssa.Instruction)) {
-				callsKDF = true
-			}
-		}
-		if callsKDF {
-			windowFn = fn
-		}
-	}
-	if windowFn == nil {
-		c.undecided("D3", "window", reg.Pos(), "no function behind RegisterChainKey derives keys in a loop and stores them")
-	} else {
-		c.analysed(windowFn)
-		dck := namedType(w, pkgTypes, "DeviceChainKey")
-		cand := -1
-		for i, p := range windowFn.Params {
-			if pt, ok := p.Type().(*types.Pointer); ok && dck != nil && types.Identical(pt.Elem(), dck) {
-				cand = i
-			}
-		}
-		if cand < 0 {
-			c.undecided("D3", fnName(windowFn), windowFn.Pos(), "window function has no *DeviceChainKey parameter")
-		} else {
-			for _, n := range []int64{1, 2, 3} {
-				const c0 = 40
-				ev := &Evaluator{W: w}
-				ev.Cfg = EvalConfig{
-					MaxDepth:  2,
-					MaxVisits: int(n) + 3,
-					Inline: func(f *ssa.Function) bool {
-						// only trivial accessors of the store (no effects, no loops, no KDF)
-						return fnPkg(f).Path() == pkgSecret && len(ei.summaryOf(f)) == 0 && !hasLoop(f) && !kdf[f] && len(f.Blocks) <= 4
-					},
-					Field: func(path string, t types.Type) (AVal, bool) {
-						if b, ok := t.Underlying().(*types.Basic); ok {
-							if b.Kind() == types.Int && !strings.HasPrefix(path, windowFn.Params[cand].Name()+".") {
-								return aConst{V: constant.MakeInt64(n), T: t}, true
-							}
-							if strings.HasSuffix(path, ".Counter") && strings.HasPrefix(path, windowFn.Params[cand].Name()+".") {
-								return aConst{V: constant.MakeInt64(c0), T: t}, true
-							}
-						}
-						return nil, false
-					},
-					Call: func(e *Evaluator, st *pstate, key string, cc *ssa.CallCommon, args []AVal) ([]AVal, bool) {
-						f := staticCallee(cc)
-						if f == nil || !inModule(f) {
-							return nil, false
-						}
-						if kdf[f] {
-							res := topResults(f.Signature)
-							if i := errResultIndex(f.Signature); i >= 0 {
-								res[i] = aNil{}
-							}
-							return res, true
-						}
-						// lookups: nothing stored yet (fresh registration)
-						sum := ei.summaryOf(f)
-						onlyGets := len(sum) > 0
-						for e2 := range sum {
-							if e2.Op != "Get" && e2.Op != "Has" {
-								onlyGets = false
-							}
-						}
-						if onlyGets {
-							res := topResults(f.Signature)
-							for i := range res {
-								if _, isPtr := f.Signature.Results().At(i).Type().Underlying().(*types.Pointer); isPtr {
-									res[i] = aNil{}
-								}
-							}
-							return res, true
-						}
-						// stores succeed
-						if len(sum) > 0 {
-							res := topResults(f.Signature)
-							if i := errResultIndex(f.Signature); i >= 0 {
-								res[i] = aNil{}
-							}
-							return res, true
-						}
-						return nil, false
-					},
-					Interesting: func(key string, cc *ssa.CallCommon) bool {
-						f := staticCallee(cc)
-						return f != nil && kdf[f]
-					},
-				}
-				outs := ev.Eval(windowFn, ev.SymbolicArgs(windowFn))
-				construct := fmt.Sprintf("%s+window=%d", fnName(windowFn), n)
-				nSucc, bad, trunc := 0, "", false
-				for _, o := range outs {
-					if o.Kind == "truncated" {
-						trunc = true
-						continue
-					}
-					if o.Kind != "return" || len(o.Results) == 0 {
-						continue
-					}
-					if i := errResultIndex(windowFn.Signature); i >= 0 && i < len(o.Results) && isDefNonNil(o.Results[i]) {
-						continue
-					}
-					nSucc++
-					if debugOn() {
-						fmt.Printf("DBG window n=%d outcome results=%v trace=%d\n", n, avString(aTuple{Elems: o.Results}), len(o.Trace))
-						if p, ok := o.Results[0].(aPtr); ok && o.Heap[p.ID] != nil {
-							fmt.Printf("   slots=%v\n", o.Heap[p.ID].Slots)
-						}
-					}
-					if int64(len(o.Trace)) != n {
-						bad = fmt.Sprintf("%d key derivations for a window of %d", len(o.Trace), n)
-					}
-					cv, ok := o.Slot(o.Results[0], ".Counter")
-					cc, isC := cv.(aConst)
-					if !ok || !isC {
-						bad = "returned chain-key counter is not a function of the registered counter and the window size"
-					} else if got, _ := constant.Int64Val(cc.V); got != c0+n {
-						bad = fmt.Sprintf("returned chain key is at counter c+%d for a window of %d (must be c+window)", got-c0, n)
-					}
-				}
-				switch {
-				case trunc:
-					c.undecided("D3", construct, windowFn.Pos(), "abstract evaluation of the precompute loop truncated: loop form not modelled")
-				case nSucc == 0:
-					c.undecided("D3", construct, windowFn.Pos(), "abstract evaluation found no success path through the precompute loop")
-				default:
-					c.check(bad == "", "D3", construct, windowFn.Pos(), fmt.Sprintf("derives exactly %d keys and returns the chain key at c+%d", n, n), bad)
-				}
-			}
-			// persisted before returning
-			okP, by := ei.mustPerform(windowFn, putPre, nil, -1)
-			c.check(okP, "D3", fnName(windowFn)+"+persist", windowFn.Pos(), "the window is stored before the function succeeds", "the window function can succeed without storing the keys (returns at "+describeReturns(c, by)+")")
-		}
+	windowFn := checkWindowFunction(c, "D3", regScope, reg)
+	if windowFn != nil {
 		// the chain key stored by registration is the window function's result
 		if regFn != nil {
 			found := false
@@ -468,4 +330,182 @@ func calleeLabel(s effectSite) string {
 		return s.Callee.Name()
 	}
 	return "direct"
+}
+
+// checkWindowFunction finds the function that precomputes the key window at registration and
+// evaluates its loop abstractly for window sizes 1..3, both on a fresh store and on a store
+// where the window's keys are already cached (a registration interrupted between the window
+// commit and the chain-key write, then retried): in both cases it must derive exactly
+// window-size keys and return the chain key at c+window — skipping a derivation for a cached
+// key would leave the returned chain key un-ratcheted.
+func checkWindowFunction(c *Ctx, rule string, regScope map[*ssa.Function]int, reg *ssa.Function) *ssa.Function {
+	w := c.W
+	ei := w.effects()
+	putPre := func(e Effect) bool { return eff("Put", nsPrecomputed)(e) || e.Op == "Commit" }
+	getPre := eff("Get", nsPrecomputed)
+	kdf := kdfFuncs(w)
+	var windowFn *ssa.Function
+	for _, fn := range sortedFuncs(regScope) {
+		if !hasLoop(fn) || len(ei.sitesWith(fn, putPre)) == 0 {
+			continue
+		}
+		callsKDF := false
+		for _, e := range w.callGraph().callees[fn] {
+			if kdf[e.Callee] && inLoop(e.Site.(ssa.Instruction)) {
+				callsKDF = true
+			}
+		}
+		if callsKDF {
+			windowFn = fn
+		}
+	}
+	if windowFn == nil {
+		c.undecided(rule, "window", reg.Pos(), "no function behind RegisterChainKey derives keys in a loop and stores them")
+	} else {
+		c.analysed(windowFn)
+		dck := namedType(w, pkgTypes, "DeviceChainKey")
+		cand := -1
+		for i, p := range windowFn.Params {
+			if pt, ok := p.Type().(*types.Pointer); ok && dck != nil && types.Identical(pt.Elem(), dck) {
+				cand = i
+			}
+		}
+		if cand < 0 {
+			c.undecided(rule, fnName(windowFn), windowFn.Pos(), "window function has no *DeviceChainKey parameter")
+		} else {
+			for _, sc := range []struct {
+				n      int64
+				cached bool
+			}{{1, false}, {2, false}, {3, false}, {2, true}, {3, true}} {
+				n, cached := sc.n, sc.cached
+				const c0 = 40
+				ev := &Evaluator{W: w}
+				ev.Cfg = EvalConfig{
+					MaxDepth:  2,
+					MaxVisits: int(n) + 3,
+					Inline: func(f *ssa.Function) bool {
+						// only trivial accessors of the store (no effects, no loops, no KDF)
+						return fnPkg(f).Path() == pkgSecret && len(ei.summaryOf(f)) == 0 && !hasLoop(f) && !kdf[f] && len(f.Blocks) <= 4
+					},
+					Field: func(path string, t types.Type) (AVal, bool) {
+						if b, ok := t.Underlying().(*types.Basic); ok {
+							if b.Kind() == types.Int && !strings.HasPrefix(path, windowFn.Params[cand].Name()+".") {
+								return aConst{V: constant.MakeInt64(n), T: t}, true
+							}
+							if strings.HasSuffix(path, ".Counter") && strings.HasPrefix(path, windowFn.Params[cand].Name()+".") {
+								return aConst{V: constant.MakeInt64(c0), T: t}, true
+							}
+						}
+						return nil, false
+					},
+					Call: func(e *Evaluator, st *pstate, key string, cc *ssa.CallCommon, args []AVal) ([]AVal, bool) {
+						f := staticCallee(cc)
+						if f == nil || !inModule(f) {
+							return nil, false
+						}
+						if kdf[f] {
+							res := topResults(f.Signature)
+							if i := errResultIndex(f.Signature); i >= 0 {
+								res[i] = aNil{}
+							}
+							return res, true
+						}
+						// lookups: nothing stored yet (fresh registration)
+						sum := ei.summaryOf(f)
+						onlyGets := len(sum) > 0
+						for e2 := range sum {
+							if e2.Op != "Get" && e2.Op != "Has" {
+								onlyGets = false
+							}
+						}
+						if onlyGets {
+							res := topResults(f.Signature)
+							hit := false
+							if cached {
+								// the window's keys survive from an interrupted registration; the chain key does not
+								for e2 := range sum {
+									if getPre(e2) {
+										hit = true
+									}
+								}
+							}
+							for i := range res {
+								if _, isPtr := f.Signature.Results().At(i).Type().Underlying().(*types.Pointer); isPtr {
+									if hit {
+										res[i] = aPtr{ID: e.newObj(st, "").ID}
+									} else {
+										res[i] = aNil{}
+									}
+								}
+							}
+							if i := errResultIndex(f.Signature); i >= 0 && hit {
+								res[i] = aNil{}
+							}
+							return res, true
+						}
+						// stores succeed
+						if len(sum) > 0 {
+							res := topResults(f.Signature)
+							if i := errResultIndex(f.Signature); i >= 0 {
+								res[i] = aNil{}
+							}
+							return res, true
+						}
+						return nil, false
+					},
+					Interesting: func(key string, cc *ssa.CallCommon) bool {
+						f := staticCallee(cc)
+						return f != nil && kdf[f]
+					},
+				}
+				outs := ev.Eval(windowFn, ev.SymbolicArgs(windowFn))
+				construct := fmt.Sprintf("%s+window=%d", fnName(windowFn), n)
+				if cached {
+					construct += "+keys-already-cached"
+				}
+				nSucc, bad, trunc := 0, "", false
+				for _, o := range outs {
+					if o.Kind == "truncated" {
+						trunc = true
+						continue
+					}
+					if o.Kind != "return" || len(o.Results) == 0 {
+						continue
+					}
+					if i := errResultIndex(windowFn.Signature); i >= 0 && i < len(o.Results) && isDefNonNil(o.Results[i]) {
+						continue
+					}
+					nSucc++
+					if debugOn() {
+						fmt.Printf("DBG window n=%d outcome results=%v trace=%d\n", n, avString(aTuple{Elems: o.Results}), len(o.Trace))
+						if p, ok := o.Results[0].(aPtr); ok && o.Heap[p.ID] != nil {
+							fmt.Printf("   slots=%v\n", o.Heap[p.ID].Slots)
+						}
+					}
+					if int64(len(o.Trace)) != n {
+						bad = fmt.Sprintf("%d key derivations for a window of %d", len(o.Trace), n)
+					}
+					cv, ok := o.Slot(o.Results[0], ".Counter")
+					cc, isC := cv.(aConst)
+					if !ok || !isC {
+						bad = "returned chain-key counter is not a function of the registered counter and the window size"
+					} else if got, _ := constant.Int64Val(cc.V); got != c0+n {
+						bad = fmt.Sprintf("returned chain key is at counter c+%d for a window of %d (must be c+window)", got-c0, n)
+					}
+				}
+				switch {
+				case trunc:
+					c.undecided(rule, construct, windowFn.Pos(), "abstract evaluation of the precompute loop truncated: loop form not modelled")
+				case nSucc == 0:
+					c.undecided(rule, construct, windowFn.Pos(), "abstract evaluation found no success path through the precompute loop")
+				default:
+					c.check(bad == "", rule, construct, windowFn.Pos(), fmt.Sprintf("derives exactly %d keys and returns the chain key at c+%d", n, n), bad)
+				}
+			}
+			// persisted before returning
+			okP, by := ei.mustPerform(windowFn, putPre, nil, -1)
+			c.check(okP, rule, fnName(windowFn)+"+persist", windowFn.Pos(), "the window is stored before the function succeeds", "the window function can succeed without storing the keys (returns at "+describeReturns(c, by)+")")
+		}
+	}
+	return windowFn
 }
